@@ -2,9 +2,9 @@
    (Model/Prox.v) at the instance Rops (Coq reals = exact-arithmetic semantics), for every list length,
    every input and every parameter value in the stated range.  dist2 a b = |a - b|^2, l1n = l1 norm,
    sumsq = squared l2 norm, lsum = sum of the entries (Model/Prox.v, instantiated at R). *)
-From Coq Require Import List Reals QArith Bool.
+From Coq Require Import List Reals QArith Qreals Bool.
 From TLV Require Import Base.Ops Model.Prox Proofs.ProxProofs Proofs.ProxProofsHard Proofs.ProxProofsRefute
-  Proofs.ProxProofsSimplex Proofs.ProxProofsMono Proofs.ProxProofsIso.
+  Proofs.ProxProofsSimplex Proofs.ProxProofsMono Proofs.ProxProofsIso Proofs.ProxTransfer.
 Import ListNotations.
 Open Scope R_scope.
 
@@ -158,6 +158,46 @@ Theorem C12_firmly_nonexpansive : forall n (C : list R -> Prop) (P : list R -> l
   forall u v, length u = n -> length v = n -> dist2 Rops (P u) (P v) <= dotd (P u) (P v) u v.
 Proof. exact firmly_nonexpansive. Qed.
 Print Assumptions C12_firmly_nonexpansive.
+
+(* ---- executed instance = proved instance: the model run at Q (exact rationals, what the correspondence evaluates and compares
+   with the implementation) and mapped into R equals the model at R on the mapped inputs (Paramcoq free theorems); hence the
+   theorems above hold for the computed values, e.g.: *)
+Theorem C12_transfer_closed_forms :
+  (forall v, map Q2R (non_negative Qops v) = non_negative Rops (map Q2R v)) /\
+  (forall t v, map Q2R (soft_thresholding Qops t v) = soft_thresholding Rops (Q2R t) (map Q2R v)) /\
+  (forall ts v, map Q2R (soft_thresholding_arr Qops ts v) = soft_thresholding_arr Rops (map Q2R ts) (map Q2R v)) /\
+  (forall t v, map Q2R (l2_square_prox Qops t v) = l2_square_prox Rops (Q2R t) (map Q2R v)) /\
+  (forall s t v, map Q2R (l2_prox_with Qops s t v) = l2_prox_with Rops (Q2R s) (Q2R t) (map Q2R v)) /\
+  (forall t v, map Q2R (smoothness_solve Qops t v) = smoothness_solve Rops (Q2R t) (map Q2R v)) /\
+  (forall t prev x, map Q2R (sm_apply Qops t prev x) = sm_apply Rops (Q2R t) (Q2R prev) (map Q2R x)) /\
+  (forall v, map Q2R (normalize Qops v) = normalize Rops (map Q2R v)).
+Proof. exact transfer_closed_forms. Qed.
+Print Assumptions C12_transfer_closed_forms.
+Theorem C12_transfer_projections :
+  (forall p v, map Q2R (simplex_prox Qops p v) = simplex_prox Rops (Q2R p) (map Q2R v)) /\
+  (forall p v, map Q2R (soft_sparsity_prox Qops p v) = soft_sparsity_prox Rops (Q2R p) (map Q2R v)) /\
+  (forall d v, map Q2R (monotonicity_prox Qops d v) = monotonicity_prox Rops d (map Q2R v)) /\
+  (forall k v, map Q2R (hard_thresholding Qops k v) = hard_thresholding Rops k (map Q2R v)) /\
+  (forall s k v, map Q2R (normalized_sparsity_with Qops s k v) = normalized_sparsity_with Rops (Q2R s) k (map Q2R v)) /\
+  (forall cols, map (map Q2R) (unimodality_cols Qops cols) = unimodality_cols Rops (map (map Q2R) cols)).
+Proof. exact transfer_projections. Qed.
+Print Assumptions C12_transfer_projections.
+Theorem C12_simplex_exec_optimal : forall (p : Q) (v : list Q) (z : list R), 0 < Q2R p -> v <> [] ->
+  length z = length v -> Forall (fun t => 0 <= t) z -> lsum Rops z = Q2R p ->
+  Forall (fun x => 0 <= x) (map Q2R (simplex_prox Qops p v)) /\ lsum Rops (map Q2R (simplex_prox Qops p v)) = Q2R p /\
+  dist2 Rops (map Q2R (simplex_prox Qops p v)) (map Q2R v) <= dist2 Rops z (map Q2R v).
+Proof. exact simplex_exec_optimal. Qed.
+Print Assumptions C12_simplex_exec_optimal.
+Theorem C12_monotone_exec_optimal : forall (v : list Q) (z : list R), length z = length v -> ndec z ->
+  ndec (map Q2R (monotonicity_prox Qops false v)) /\
+  dist2 Rops (map Q2R (monotonicity_prox Qops false v)) (map Q2R v) <= dist2 Rops z (map Q2R v).
+Proof. exact monotone_exec_optimal. Qed.
+Print Assumptions C12_monotone_exec_optimal.
+Theorem C12_hard_exec_nearest : forall (k : nat) (v : list Q) (z : list R), length z = length v -> (nnzR z <= k)%nat ->
+  (nnzR (map Q2R (hard_thresholding Qops k v)) <= k)%nat /\
+  dist2 Rops (map Q2R (hard_thresholding Qops k v)) (map Q2R v) <= dist2 Rops z (map Q2R v).
+Proof. exact hard_exec_nearest. Qed.
+Print Assumptions C12_hard_exec_nearest.
 
 (* ---- deliberately unfixed operators: refutation (exact rational witness on the executed instance) + what holds *)
 Theorem C12_l1ball_refuted : exists (p : Q) (v : list Q),
